@@ -75,13 +75,16 @@ Definition trunc_mul (c : float) (x : Z) : option Z :=
 (** search.go:664  [int64(15 + (25 * p.GamePhaseFactor()))] with
     position.go:1166 [GamePhaseFactor = float64(gamePhase) / 24]; the game
     phase is clamped to 0..24 by position.go:860-889.                       *)
+(** types.go: GamePhaseMax = 24 (compared with the engine's value in ConstTie.v) *)
+Definition GamePhaseMax : Z := 24.
+
 Definition moves_left_float (phase : Z) : option Z :=
   if (0 <=? phase) && (phase <? 2^63) then
-    sf_trunc (Prim2SF (15 + 25 * (f64_of_nonneg phase / 24))%float)
+    sf_trunc (Prim2SF (15 + 25 * (f64_of_nonneg phase / f64_of_nonneg GamePhaseMax))%float)
   else None.
 
 (** the integer characterisation (proved equal for phase 0..24)            *)
-Definition moves_left_int (phase : Z) : Z := 15 + (25 * phase) / 24.
+Definition moves_left_int (phase : Z) : Z := 15 + (25 * phase) / GamePhaseMax.
 
 (** search.go:660-665 *)
 Definition moves_left (movestogo phase : Z) : option Z :=
